@@ -585,15 +585,20 @@ type tierCfg struct {
 	twoDevN      int // all two-deviation sleep schedules for this n (0 = none)
 	twoDevStride int
 	staggerNs    []int // committee sizes for the "one member signs early and goes away, the others arrive late" schedules
+	pairCrashNs  []int // committee sizes for the two-crash schedules (two members down at once; a restarted member cancelled again)
+	pairStride   int   // ... placed on every k-th round of the default schedule
+	pairGaps     []int // rounds between the first and the second cancellation of one member
 }
 
 func tierOf(name string) tierCfg {
 	if name == "thorough" {
 		return tierCfg{ns: []int{1, 2, 3, 4, 5, 6, 7}, sleepNs: []int{1, 2, 3, 4}, sleepLens: []int{1, 3, 150}, crashNs: []int{1, 2, 3, 4}, crashDelays: []int{0, 2, 150}, crashEvery: 1,
-			callCrashNs: []int{2, 3}, callStride: 3, reorderNs: []int{1, 2, 3}, holdNs: []int{1, 2, 3}, holdLens: []int{1, 3, 130}, absentNs: []int{3, 4, 5, 6, 7}, repeat: 16, twoDevN: 2, twoDevStride: 6, staggerNs: []int{4, 5, 6}}
+			callCrashNs: []int{2, 3}, callStride: 3, reorderNs: []int{1, 2, 3}, holdNs: []int{1, 2, 3}, holdLens: []int{1, 3, 130}, absentNs: []int{3, 4, 5, 6, 7}, repeat: 16, twoDevN: 2, twoDevStride: 6, staggerNs: []int{4, 5, 6},
+			pairCrashNs: []int{1, 2, 3, 4}, pairStride: 2, pairGaps: []int{1, 2, 5, 30}}
 	}
 	return tierCfg{ns: []int{1, 2, 3, 4}, sleepNs: []int{1, 2, 3}, sleepLens: []int{1}, longSleepNs: []int{2, 3}, crashNs: []int{1, 2, 3}, crashDelays: []int{0}, crashEvery: 2,
-		callCrashNs: nil, reorderNs: []int{2}, holdNs: []int{1, 2}, holdLens: []int{2}, absentNs: []int{3, 4}, repeat: 3, staggerNs: []int{4}}
+		callCrashNs: nil, reorderNs: []int{2}, holdNs: []int{1, 2}, holdLens: []int{2}, absentNs: []int{3, 4}, repeat: 3, staggerNs: []int{4},
+		pairCrashNs: []int{1, 2, 3}, pairStride: 8, pairGaps: []int{1, 4}}
 }
 
 func minorities(n int) [][]int {
@@ -689,6 +694,9 @@ func TestC13(t *testing.T) {
 				kind = r.Sched.Devs[0].Kind
 				if len(r.Sched.Devs) > 1 {
 					kind += "+" + r.Sched.Devs[1].Kind
+				}
+				if len(r.Sched.Devs) == 2 && kind == "crash+crash" && r.Sched.Devs[0].Member == r.Sched.Devs[1].Member {
+					kind = "crash-twice"
 				}
 				if len(r.Sched.Devs) > 1 && r.Sched.Devs[0].Len == 400 {
 					kind = "early-signer-leaves"
@@ -852,6 +860,31 @@ func TestC13(t *testing.T) {
 		rep.Bound = "all enumerated 1-deviation schedules"
 		if len(cfg.staggerNs) > 0 {
 			rep.Bound += fmt.Sprintf(" and the early-signer-leaves shapes (n-1 simultaneous sleeps) for n=%v", cfg.staggerNs)
+		}
+		// ---- 2 deviations: two cancellations. (a) two members are cancelled in the same round and restarted together
+		// (at once, or two rounds later); (b) a member is cancelled, restarted at once, and its second incarnation is
+		// cancelled again a few rounds later ----
+		if len(cfg.pairCrashNs) > 0 && len(rep.Violations) == 0 {
+			var s2 []Schedule
+			for _, n := range cfg.pairCrashNs {
+				if defLen[n] == 0 {
+					continue
+				}
+				for r := 1; r < defLen[n]; r += cfg.pairStride {
+					for i := 0; i < n; i++ {
+						for j := i + 1; j < n; j++ {
+							for _, k := range []int{0, 2} {
+								s2 = append(s2, Schedule{N: n, Devs: []Dev{{Kind: "crash", Member: i, Round: r, Len: k}, {Kind: "crash", Member: j, Round: r, Len: k}}})
+							}
+						}
+						for _, g := range cfg.pairGaps {
+							s2 = append(s2, Schedule{N: n, Devs: []Dev{{Kind: "crash", Member: i, Round: r, Len: 0}, {Kind: "crash", Member: i, Round: r + g, Len: 0}}})
+						}
+					}
+				}
+			}
+			runAll(s2, hz)
+			rep.Bound += fmt.Sprintf("; two cancellations (two members in one round; one member twice, %v rounds apart) for n=%v on a stride of %d rounds", cfg.pairGaps, cfg.pairCrashNs, cfg.pairStride)
 		}
 		// ---- 2 deviations (thorough): pairs of sleeps for the smallest multi-member committee ----
 		if cfg.twoDevN > 0 && len(rep.Violations) == 0 {
